@@ -55,6 +55,11 @@ func TestVerifSys(t *testing.T) {
 		run(Versioned(r.Rng))
 		run(Rescoped(r.Rng))
 	}
+	// lost status updates during the roll-out of delegated phases, then teardown
+	n = r.Pick(400, 4000)
+	for i := 0; i < n; i++ {
+		run(LostStatus(r.Rng))
+	}
 }
 
 // TestVerifSysSlices (property C04, stream "slices"): rolled-out ObjectSets keeping objects in
